@@ -858,6 +858,13 @@ func (l *Lowerer) rangeStmt(x *ast.RangeStmt, label string) {
 		vis := V(visVar, visSort)
 		hidden := map[string]envEntry{"$visited": {vis, types.NewArray(types.Typ[types.Bool], 1<<62)}, "$m": {mv, xt}}
 		head, post, exit, li, ord, ls := l.beginLoop(label, nil)
+		// $visited<ordinal> / $visited_<name>: the visited set of this loop, also visible in nested loops
+		outerVis := map[string]envEntry{fmt.Sprintf("$visited%d", ord): hidden["$visited"]}
+		if ls != nil && ls.Name != "" {
+			outerVis["$visited_"+ls.Name] = hidden["$visited"]
+		}
+		l.pushEnv(outerVis)
+		defer l.popEnv()
 		l.invClauses(ls, hidden, "inv-entry", ord, x)
 		l.jump(head)
 		l.cur = head
